@@ -498,6 +498,7 @@ class Interp:
         self.depth = 0
         self.stack = []               # ids of the FunctionDefs being inlined (recursion guard)
         self.warnings = []
+        self.positive_syms = set() # further atoms the rule declares positive (a second temperature ...)
         self.decorated = {}        # id(def) -> what its (user-defined) decorators made of it
         self.lazy_atoms = set()    # atoms created for attributes an open object was never given
         self.np_syms = {}          # atom name -> 'int64' | 'float32' | 'float64': symbols the rule declares numpy scalars
@@ -1264,9 +1265,11 @@ class Interp:
                 return res if op == 'is' else not res
             if isinstance(a, TypeOf) and isinstance(b, Builtin):
                 v = a.v
+                num_kind = self.number_type(v, node) if isinstance(v, Rat) and b.name in ('float', 'int') else None
                 res = {'list': isinstance(v, ListV) and not getattr(v, 'is_array', False),
                        'str': isinstance(v, str), 'dict': isinstance(v, DictV),
-                       'float': isinstance(v, Rat), 'int': False, 'tuple': False}.get(b.name)
+                       'float': num_kind == 'float', 'int': num_kind == 'int', 'tuple': False,
+                       'bool': isinstance(v, bool)}.get(b.name)
                 if res is None:
                     raise Unsupported('type() test against %s' % b.name)
                 return res if op == 'is' else not res
@@ -1405,6 +1408,21 @@ class Interp:
                 if r is not None:
                     return r
         raise Unsupported('undecidable comparison %s' % op, node)
+
+    def number_type(self, v, node=None):
+        """name of the Python type of a number: 'int' / 'float' for what the rule declared (int_syms; symbols stand for
+        floats otherwise), 'int64' / 'float64' / 'float32' for declared numpy scalars; a literal number's type is not
+        tracked"""
+        ats = v.atoms() if isinstance(v, Rat) else set()
+        if not ats:
+            raise Unsupported('type of a number whose Python type is not tracked', node)
+        if all(a_ in self.np_syms for a_ in ats) and len({self.np_syms[a_] for a_ in ats}) == 1:
+            return self.np_syms[next(iter(ats))]
+        if any(a_ in self.np_syms for a_ in ats):
+            raise Unsupported('type of a mixed numpy / Python number', node)
+        if all(a_ in self.int_syms for a_ in ats) and v.integer_coefficients():
+            return 'int'
+        return 'float'
 
     def struct_eq(self, a, b):
         if isinstance(a, DictV) and isinstance(b, DictV):
@@ -1583,7 +1601,26 @@ class Frame:
                 raise _RaisedExc(Raised(exc, st, xargs))
             raise _RaisedExc(Raised(exc, st))
         if isinstance(st, ast.If):
-            t = I.truth(self.ev(st.test), st)
+            tv = self.ev(st.test)
+            if isinstance(tv, RealTest) and self.in_vec_loop:
+                # `if np.isreal(x):` inside a loop over the roots: the body runs for the real roots only - every local
+                # bound to the unfiltered root stands for a real root in there (as in a comprehension filter)
+                if st.orelse:
+                    raise Unsupported('else branch of a test for real roots inside a loop over the roots', st,
+                                      self.module.relpath)
+                plain_, real_ = Rat.atom(tv.atom), Rat.atom(_real_roots(I, tv.atom))
+                swapped = [k_ for k_ in list(self.env.keys()) if isinstance(k_, str) and
+                           isinstance(self.env[k_], Rat) and self.env[k_].eq(plain_)]
+                for k_ in swapped:
+                    self.env[k_] = real_
+                try:
+                    self.exec_block(st.body)
+                finally:
+                    for k_ in swapped:
+                        if isinstance(self.env.get(k_), Rat) and self.env[k_].eq(real_):
+                            self.env[k_] = plain_
+                return
+            t = I.truth(tv, st)
             self.exec_block(st.body if t else st.orelse)
             return
         if isinstance(st, ast.Pass):
@@ -2649,6 +2686,10 @@ class Frame:
             v_ = base.v
             if isinstance(v_, Obj) and v_.ci is not None:
                 return v_.ci.name
+            if isinstance(v_, Rat):
+                return I.number_type(v_, n)
+            if isinstance(v_, ListV):
+                return 'ndarray' if getattr(v_, 'is_array', False) else 'list'
             if isinstance(v_, bool):
                 return 'bool'
             if isinstance(v_, (str, SegStr)):
@@ -3335,6 +3376,12 @@ def builtin_call(I, fr, name, args, kwargs, n):
         if isinstance(v, DictV):
             return C(len(v.d))
         if isinstance(v, Elem):
+            at_ = _root_atom(I, v.r) if isinstance(v.r, Rat) else None
+            if at_ is not None:
+                # a vector of roots and the vector of those that passed a filter have lengths of their own
+                nm_ = 'len<%s>' % at_
+                I.int_syms.add(nm_)
+                return I.D.sym(nm_)
             return I.D.sym('len<vec>')
         if isinstance(v, Obj) and v.ci is not None and I.repo.find_method(v.ci, '__len__', missing_ok=True):
             return I.call_method(v, '__len__', [], {})
@@ -3358,7 +3405,10 @@ def builtin_call(I, fr, name, args, kwargs, n):
             return ListV([])
         v = args[0]
         if isinstance(v, ListV):
-            return ListV(take(v))
+            r_ = ListV(take(v))
+            if getattr(v, 'np_int', False):
+                r_.np_int = True            # the entries are still numpy integers
+            return r_
         if isinstance(v, Elem):
             return v
         if isinstance(v, ZipV) and v.vector:
@@ -3975,7 +4025,8 @@ def abstract_str_method(I, fr, b, name, args, kwargs, n):
         if r is None:
             raise Unsupported('rfind(): user text after the last literal occurrence', n)
         return C(r)
-    if name in ('strip', 'lstrip', 'rstrip') and (not args or args == ['\n'] or args == [' ']):
+    if name in ('strip', 'lstrip', 'rstrip') and (not args or (
+            len(args) == 1 and isinstance(args[0], str) and args[0] not in I.sym_strings)) and not kwargs:
         # the analysed code's own strip
         return I.plain(sb.strip(name, args[0] if args else None, strict=True, sign=I.sign_of))
     if name in ('removeprefix', 'removesuffix') and len(args) == 1 and isinstance(args[0], (str, SegStr)):
@@ -4115,6 +4166,16 @@ def _np_array(I, fr, args, kwargs, n):
             r.dtype = tag
         elif getattr(v, 'dtype', None) is not None:
             r.dtype = v.dtype
+
+        def int_leaves(x):
+            if isinstance(x, ListV):
+                return bool(x.items) and all(int_leaves(y) for y in x.items)
+            return isinstance(x, Rat) and bool(x.atoms()) and x.integer_coefficients() and \
+                all(a_ in I.int_syms for a_ in x.atoms()) and not any(a_ in I.np_syms for a_ in x.atoms())
+        if tag is None and int_leaves(r):
+            # an array made from Python ints holds numpy integers: list() / iteration of it hands out np.int64 values
+            # (which e.g. the JSON encoder refuses), not the ints that went in
+            r.np_int = True
         return r
     return v
 
@@ -4875,7 +4936,7 @@ def canonical_extremum(I, which, items):
         shared = set.intersection(*[set(m_) for m_ in monos])
         g = {}
         for a_ in shared:
-            if a_ in SURELY_POSITIVE or a_.startswith('U<'):
+            if a_ in SURELY_POSITIVE or a_.startswith('U<') or a_ in I.positive_syms:
                 e_ = min(m_[a_] for m_ in monos)
                 if e_ != 0:
                     g[a_] = e_
@@ -4905,6 +4966,9 @@ def canonical_extremum(I, which, items):
 def _np_minmax(which):
     def h(I, fr, args, kwargs, n):
         v = _arg(args, kwargs, 0, 'a')
+        if isinstance(v, ListV) and not getattr(v, 'is_array', False) and len(v.items) == 1 and \
+                isinstance(v.items[0], VecItem):
+            v = _vec_norm(v)                    # a list filled by append inside a loop over a vector
         initial = kwargs.get('initial')
         if isinstance(v, Elem) and isinstance(v.r, Rat) and v.r.is_monomial():
             at = list(v.r.atoms())
@@ -5125,6 +5189,14 @@ def _table_keys(I, fname):
             for nd in ast.walk(fn):
                 if isinstance(nd, ast.Assign) and isinstance(nd.value, ast.Dict):
                     keys = {k.value for k in nd.value.keys if isinstance(k, ast.Constant)}
+        if keys is None and fn is not None:
+            # the table may be written at module level and only read by the function
+            for nd in ast.walk(fn):
+                if isinstance(nd, ast.Name) and isinstance(nd.ctx, ast.Load):
+                    node = (m.assigns.get(nd.id) or [None])[-1]
+                    if isinstance(node, ast.Dict) and node.keys and all(
+                            isinstance(k, ast.Constant) and isinstance(k.value, str) for k in node.keys):
+                        keys = {k.value for k in node.keys}
         if keys is None:
             raise AnchorError('table of pmutt.constants.%s not found' % fname)
         cache[fname] = keys
@@ -5344,6 +5416,23 @@ def _np_searchsorted(I, fr, args, kwargs, n):
         else:
             break
     return C(k)
+
+
+def _bisect(side, insert=False):
+    """bisect.bisect_left / bisect_right (= bisect) / insort_*: the insertion point in an ascending list, decided by
+    the ordering oracle entry by entry (lo / hi / key are not modelled)"""
+    def h(I, fr, args, kwargs, n):
+        if len(args) != 2 or kwargs:
+            raise Unsupported('bisect with lo / hi / key', n)
+        a, x = args
+        if not (isinstance(a, ListV) and not getattr(a, 'is_array', False) and isinstance(x, Rat)):
+            raise Unsupported('bisect operands', n)
+        k = int(_np_searchsorted(I, fr, [a, x, side], {}, n).const_value()) if a.items else 0
+        if insert:
+            a.items.insert(k, x)
+            return None
+        return C(k)
+    return h
 
 
 def _operator(op):
@@ -5593,6 +5682,9 @@ NATIVE = {
     'itertools.combinations_with_replacement': _itertools_comb('combinations_with_replacement'),
     're.compile': _re_compile,
     'numpy.searchsorted': _np_searchsorted,
+    'bisect.bisect_left': _bisect('left'), 'bisect.bisect_right': _bisect('right'), 'bisect.bisect': _bisect('right'),
+    'bisect.insort_left': _bisect('left', True), 'bisect.insort_right': _bisect('right', True),
+    'bisect.insort': _bisect('right', True),
     'scipy.integrate.quad': _quad,
     'networkx.Graph': lambda I, fr, args, kwargs, n: _nx_graph(I), 'networkx.DiGraph': lambda I, fr, args, kwargs, n: _nx_graph(I),
     # wall-clock text in file headers: a fixed-form stamp whose content no rule depends on
